@@ -168,8 +168,12 @@ class AbsoluteModelRef:
     """
 
     class Context:
-        data = threading.local()
-        data.context: ContextInjectionType = None
+        class _Local(threading.local):
+            # Class-level default: an attribute assigned on a threading.local() instance exists only in the
+            # assigning (importing) thread, every other thread would raise AttributeError
+            context: ContextInjectionType = None
+
+        data = _Local()
 
         def __init__(self, patches: ContextInjectionType):
             self.context: ContextInjectionType = patches
